@@ -55,7 +55,10 @@ void XmlNode::setXmlNode(const xmlNodePtr &node)
 
 std::string XmlNode::namespaceUri() const
 {
-    if (mPimpl->mXmlNodePtr->ns == nullptr) {
+    // Only elements and attributes have a namespace: the structures of other
+    // kinds of nodes (e.g., an entity declaration) have no such member.
+    if (((mPimpl->mXmlNodePtr->type != XML_ELEMENT_NODE) && (mPimpl->mXmlNodePtr->type != XML_ATTRIBUTE_NODE))
+        || (mPimpl->mXmlNodePtr->ns == nullptr)) {
         return {};
     }
     return reinterpret_cast<const char *>(mPimpl->mXmlNodePtr->ns->href);
@@ -224,6 +227,10 @@ bool XmlNode::isComment() const
 
 std::string XmlNode::name() const
 {
+    // Some kinds of nodes have no name.
+    if (mPimpl->mXmlNodePtr->name == nullptr) {
+        return {};
+    }
     return reinterpret_cast<const char *>(mPimpl->mXmlNodePtr->name);
 }
 
@@ -259,6 +266,10 @@ void XmlNode::setAttribute(const char *attributeName, const char *attributeValue
 
 XmlAttributePtr XmlNode::firstAttribute() const
 {
+    // Only elements have attributes.
+    if (mPimpl->mXmlNodePtr->type != XML_ELEMENT_NODE) {
+        return nullptr;
+    }
     xmlAttrPtr attribute = mPimpl->mXmlNodePtr->properties;
     XmlAttributePtr attributeHandle = nullptr;
     if (attribute != nullptr) {
@@ -275,6 +286,11 @@ bool XmlNode::equals(const XmlNodePtr &node) const
 
 XmlNodePtr XmlNode::firstChild() const
 {
+    // Only elements have children that are regular nodes (the child of an
+    // entity reference is the declaration of the entity).
+    if (mPimpl->mXmlNodePtr->type != XML_ELEMENT_NODE) {
+        return nullptr;
+    }
     xmlNodePtr child = mPimpl->mXmlNodePtr->children;
     XmlNodePtr childHandle = nullptr;
     while (child != nullptr) {
